@@ -218,6 +218,20 @@ let cmd_c16 (args : sx list) : sx =
             | OutOfFuel -> L [A "out-of-fuel"]))
   | _ -> failwith "c16 args"
 
+(* ------------------------------------------------------- C15: toposort *)
+let sx_tgraph (x : sx) : (n * n list) list =
+  sx_list (fun e -> match e with L [v; outs] -> (sx_n v, sx_list sx_n outs) | _ -> failwith "tgraph") x
+
+let cmd_c15 (args : sx list) : sx =
+  match args with
+  | [root; calls] ->
+      let calls = sx_list (fun c -> match c with L [g; ord] -> (sx_tgraph g, sx_list sx_n ord) | _ -> failwith "call") calls in
+      (match ts_run (nat_of_int 1000) calls (ts_init (sx_n root)) with
+       | Ok (outs, _) -> L (List.map (fun o -> opt_sx n_sx o) outs)
+       | Panic s -> L [A "panic"; A ("#" ^ site_name s)]
+       | OutOfFuel -> L [A "out-of-fuel"])
+  | _ -> failwith "c15 args"
+
 let dispatch (x : sx) : sx =
   match x with
   | L (A "c12" :: args) -> cmd_c12 args
@@ -226,6 +240,7 @@ let dispatch (x : sx) : sx =
   | L (A "c13" :: args) -> cmd_c13 args
   | L (A "c16" :: args) -> cmd_c16 args
   | L (A "c14" :: args) -> cmd_c14 args
+  | L (A "c15" :: args) -> cmd_c15 args
   | _ -> failwith "unknown command"
 
 let () =
